@@ -20,17 +20,33 @@ def lcm(a, b):
     return a * b // math.gcd(a, b)
 
 
-def build_map(clsname, rows):
+HOWS = ("ctor", "nogroup", "pandas", "pandas-nogroup", "reorder")
+
+
+def build_map(clsname, rows, how="ctor", rng=None):
+    """how: the default constructor (rows are grouped and the spline is built at once); the constructor / the data-frame
+    import with auto_group=False (the spline is built from the rows AS SUPPLIED); a grouped map whose rows are reordered
+    in place before the spline is rebuilt"""
     from pybrops.popgen.gmap.StandardGeneticMap import StandardGeneticMap
     from pybrops.popgen.gmap.ExtendedGeneticMap import ExtendedGeneticMap
     ch = np.array([r[0] for r in rows], dtype="int64"); ph = np.array([r[1] for r in rows], dtype="int64")
     ge = np.array([r[2] for r in rows], dtype=float) / G
-    if clsname == "StandardGeneticMap":
-        return StandardGeneticMap(vrnt_chrgrp=ch, vrnt_phypos=ph, vrnt_genpos=ge)
-    return ExtendedGeneticMap(vrnt_chrgrp=ch, vrnt_phypos=ph, vrnt_stop=ph + 1, vrnt_genpos=ge)
+    std = clsname == "StandardGeneticMap"
+    if how in ("pandas", "pandas-nogroup") and std:
+        import pandas
+        df = pandas.DataFrame({"chr": ch, "pos": ph, "cM": ge})
+        return StandardGeneticMap.from_pandas(df, auto_group=(how == "pandas"))
+    kw = {"auto_group": False} if how in ("nogroup", "pandas-nogroup") else {}
+    m = StandardGeneticMap(vrnt_chrgrp=ch, vrnt_phypos=ph, vrnt_genpos=ge, **kw) if std else \
+        ExtendedGeneticMap(vrnt_chrgrp=ch, vrnt_phypos=ph, vrnt_stop=ph + 1, vrnt_genpos=ge, **kw)
+    if how == "reorder":
+        perm = list(range(len(rows))); (rng or random).shuffle(perm)
+        m.reorder(np.array(perm))
+        m.build_spline()
+    return m
 
 
-def map_case(cid, clsname, rows, queries):
+def map_case(cid, clsname, rows, queries, how="ctor", rng=None):
     c = {"id": cid, "kind": "map", "cls": clsname, "rows": [list(r) for r in rows], "G": G, "q": [list(q) for q in queries], "err": None}
     S = 1
     for chn in {r[0] for r in rows}:
@@ -42,7 +58,13 @@ def map_case(cid, clsname, rows, queries):
         with time_limit(30), np.errstate(all="ignore"):
             import warnings
             warnings.simplefilter("ignore")
-            m = build_map(clsname, rows)
+            m = build_map(clsname, rows, how, rng)
+            # interpolation is asked in the caller's order (chromosome labels interleaved) and BEFORE anything else touches
+            # the map; the distance functions below document grouped input and get the grouped listing
+            rc = np.array([q[0] for q in queries], dtype="int64"); rp = np.array([q[1] for q in queries], dtype="int64")
+            iv_raw = np.asarray(m.interp_genpos(rc, rp), dtype=float)
+            if how != "ctor" and not m.is_grouped():
+                m.group()
             st = list(zip(m.vrnt_chrgrp.tolist(), m.vrnt_phypos.tolist(), np.rint(np.asarray(m.vrnt_genpos) * G).astype(int).tolist()))
             c["sorted"] = [list(map(int, r)) for r in st]
             c["congr"] = bool(m.is_congruent())
@@ -51,10 +73,6 @@ def map_case(cid, clsname, rows, queries):
             c["q"] = [list(q) for q in qs]
             qc = np.array([q[0] for q in qs], dtype="int64"); qp = np.array([q[1] for q in qs], dtype="int64")
             ok = [True]; dok = [True]
-            # interpolation is asked in the caller's order (chromosome labels interleaved); the distance functions below
-            # document grouped input and get the grouped listing
-            rc = np.array([q[0] for q in queries], dtype="int64"); rp = np.array([q[1] for q in queries], dtype="int64")
-            iv_raw = np.asarray(m.interp_genpos(rc, rp), dtype=float)
             iv = iv_raw[order] if iv_raw.shape == (len(queries),) else iv_raw
             c["im"] = [bool(np.isnan(x)) for x in iv]
             c["iv"] = lat(np.where(np.isnan(iv), 0.0, iv), S * G, ok).tolist(); c["ilat"] = ok[0]
@@ -137,6 +155,13 @@ def run(ctx):
         chs = [r_[0] for r_ in rows]
         qs = [(rng.choice(chs + [11]), rng.randrange(0, 40)) for _ in range(8)]
         allc.append(map_case(len(allc) + 1, rng.choice(["StandardGeneticMap", "ExtendedGeneticMap"]), rows, qs))
+        # the same rows through the other ways of building a map (no grouping at construction, data-frame import,
+        # in-place reordering followed by a new spline)
+        how = HOWS[1 + len(allc) % 4]
+        cc = map_case(len(allc) + 1, "StandardGeneticMap" if how.startswith("pandas") else rng.choice(["StandardGeneticMap", "ExtendedGeneticMap"]),
+                      rows, qs, how, rng)
+        cc["how"] = how
+        allc.append(cc)
     # lattice cases for the map functions
     ks = list(range(0, 9))
     lat_cases = [{"id": len(allc) + 1, "kind": "lattice", "fn": "haldane", "ks": ks},
@@ -148,7 +173,7 @@ def run(ctx):
         nt = len({r_[0] for r_ in c["rows"]}) >= 2
         ctx.count(1, repr((c["cls"], c["rows"], c["q"])) if nt else None)
         if v != "ok":
-            ctx.violation("%s:%s" % (c["cls"], v), "TLC verdict %s%s" % (v, " -- " + c["err"] if c["err"] else ""),
+            ctx.violation("%s:%s%s" % (c["cls"], v, ":" + c["how"] if c.get("how") else ""), "TLC verdict %s%s" % (v, " -- " + c["err"] if c["err"] else ""),
                           {k: c[k] for k in ("rows", "q", "S", "sorted", "iv", "im", "d1", "d1inf", "err") if k in c})
     ctx.sample({k: allc[0][k] for k in ("cls", "rows", "q", "S", "sorted", "iv", "im", "d1", "d1inf", "congr")})
     # ---- map functions against the exact lattice
